@@ -30,7 +30,7 @@ NOTE = {
  "C29": "Bounded and partial: copy_obj_block with concrete start address and concrete S/N shape per obligation; the constructor new_with_mcr (I/O page zero, OS loaded once) with MemArray::new, <[Word]>::fill (single-element contract), load_os, FrameStack::new and the rand sources stubbed. Not covered: Simulator::load_obj_file (iteration over the object file's BTreeMap of blocks, external-symbol rejection, alloca list), registers/PC unchanged by load, the content of the OS image.",
  "C30": "reset is verified against new_with_mcr replaced by a recording stub ('equals a new simulator' holds by construction of reset calling it once with the same flags and MCR handle); the constructor's body has its own obligations (K.new.*) with MemArray::new, <[Word]>::fill, load_os, FrameStack::new and rand stubbed -- OS image and the 64K memory fill are not verified; register map compared by content for one concrete mapping; breakpoint set not compared by content; io_reset per device slot bounded (4 slots) and its call by reset not required.",
  "C32": "Device counts bounded (<= 5 slots, <= 2 requested ports); remove_device explored per removed id with one symbolic owner, plus one concrete multi-port table; mmap_internal with concrete addresses (hashing a symbolic key is out of reach); <SimDevice as ExternalDevice> calls replaced by slot-recording stubs; real keyboard/display devices with buffers <= 2 bytes; custom devices (Box<dyn ExternalDevice>) abstracted.",
- "C34": "Assumed: StdRng's raw output is arbitrary (ChaCha not executed) and rand's range reduction is verified through only for four concrete ranges; try_generate_time's contract in the Verus unit is otherwise assumed; ranges must be subsets of [1, inf) for the interval lemma; same-seed reproducibility (rand) not claimed.",
+ "C34": "Assumed: StdRng's raw output is arbitrary (ChaCha not executed) and rand's range reduction is verified through only for four concrete ranges; try_generate_time's contract in the Verus unit is otherwise assumed; ranges must be subsets of [1, inf) for the interval lemma; 'the same seed gives the same sequence': TimerDevice::new builds the generator from the given seed alone (bounded: one concrete seed, two concrete ranges), StdRng's determinism in its seed is assumed (crate rand, not executed).",
  "C35": "rustc/Kani/CBMC/CaDiCaL trusted; std verified through",
 }
 ENGINE = {"C02": "verus+kani", "C01": "kani+verus", "C34": "verus+kani", "C25": "verus+kani"}
